@@ -20,7 +20,8 @@ def find(ctx, name):
 def run(ctx):
     thorough = ctx.tier == "thorough"
     ctx.rule = ("cases = every sequence of message kinds {valid, short (<4 bytes), bad header, wrong operation name, foreign "
-                "topic} of length <= L (quick 3, thorough 4) x every Unsubscribe position, enumerated by TLC with the handler "
+                "topic} of length <= L (quick 3, thorough 4) x every Unsubscribe position, plus backlogs of 200 / 400 (thorough 3000) "
+                "well-formed messages published while the handler is held inside the first one, enumerated by TLC with the handler "
                 "log the PubSub properties force; run through the generated publisher/subscriber over embedded NATS (1, 2 "
                 "(thorough 3) workers) and STOMP (go-stomp server), bad messages published raw; oracle: handler log (ids, "
                 "order for one worker, payload, publisher headers incl. _topic_user, cid) = expectation, a sentinel published "
@@ -39,7 +40,7 @@ def run(ctx):
         ctx.tlc_must_hold("PubSub", "p.cfg", cfg_text=ps_cfg(5, 3, 2, "skip", "TRUE", props=False), timeout=3000, workers=NCPU, heap="12g")
     L = 4 if thorough else 3
     ctx.tlc_must_hold("PubSubCases", "pc.cfg", workers=1, timeout=600,
-                      cfg_text="SPECIFICATION Spec\nCONSTANTS MaxLen = %d WithUnsub = TRUE\nCHECK_DEADLOCK FALSE\n" % L)
+                      cfg_text="SPECIFICATION Spec\nCONSTANTS MaxLen = %d WithUnsub = TRUE Bursts = {%s}\nCHECK_DEADLOCK FALSE\n" % (L, "200, 400, 3000" if thorough else "200, 400"))
     cases_file = find(ctx, "pubsub_cases.json")
     cases = json.load(open(cases_file))
     ctx.states += len(cases)
@@ -66,7 +67,7 @@ def run(ctx):
             for c in cases:
                 if t == "stomp" and c["unsub"] != 0:
                     continue
-                ctx.case(key=[t, w, c["kinds"], c["unsub"]], nontrivial=(c["unsub"] != 0 or any(k != "ok" for k in c["kinds"])))
+                ctx.case(key=[t, w, c["kinds"], c["unsub"], c["stall"]], nontrivial=(c["unsub"] != 0 or c["stall"] or any(k != "ok" for k in c["kinds"])))
     ctx.extra["runs"] = res["runs"]
     ctx.extra["messages_published"] = res["published"]
     ctx.extra["handler_invocations"] = res["delivered"]
